@@ -177,12 +177,22 @@ func segLabel(segs []int, total int) string {
 // and returns the error of the first failing Write plus how many bytes were
 // acknowledged.
 func writeSegs(w io.Writer, data []byte, segs []int) (int, error) {
+	// Every piece is handed over in a scratch buffer that is overwritten as
+	// soon as Write returns: io.Writer implementations must not retain p.
+	write := func(p []byte) (int, error) {
+		scratch := append([]byte{}, p...)
+		n, err := w.Write(scratch)
+		for i := range scratch {
+			scratch[i] = 0xA5
+		}
+		return n, err
+	}
 	pos := 0
 	for _, s := range segs {
 		if pos+s > len(data) {
 			s = len(data) - pos
 		}
-		n, err := w.Write(data[pos : pos+s])
+		n, err := write(data[pos : pos+s])
 		if err != nil {
 			return pos + n, err
 		}
@@ -192,7 +202,7 @@ func writeSegs(w io.Writer, data []byte, segs []int) (int, error) {
 		pos += s
 	}
 	if pos < len(data) || len(segs) == 0 {
-		n, err := w.Write(data[pos:])
+		n, err := write(data[pos:])
 		if err != nil {
 			return pos + n, err
 		}
